@@ -5,8 +5,10 @@ import (
 	"errors"
 	"fmt"
 	"os"
+	"path/filepath"
 	"runtime/debug"
 	"testing"
+	"testing/synctest"
 	"time"
 
 	"github.com/klev-dev/klevdb"
@@ -197,4 +199,47 @@ func init() {
 		defer os.RemoveAll(dir)
 		runCodecCase(c, st, dir)
 	})
+}
+
+// TestRegress replays every saved case of $VF_REGRESS_DIR (the committed seconds-long regression tier:
+// shrunk reproductions of defects that were repaired, and of seeded changes). Bypasses rapid.
+func TestRegress(t *testing.T) {
+	dir := os.Getenv("VF_REGRESS_DIR")
+	if dir == "" {
+		t.Skip("VF_REGRESS_DIR not set")
+	}
+	es, _ := os.ReadDir(dir)
+	st := NewStats(os.Getenv("VF_PROP"))
+	defer st.Write()
+	for _, en := range es {
+		if filepath.Ext(en.Name()) != ".json" {
+			continue
+		}
+		path := filepath.Join(dir, en.Name())
+		rf, err := ReadReplay(path)
+		if err != nil {
+			t.Fatalf("%s: %v", path, err)
+		}
+		var v *Violation
+		if rf.Engine == "notify" {
+			var c NotifyCase
+			if err := json.Unmarshal(rf.Case, &c); err != nil {
+				t.Fatal(err)
+			}
+			var msg string
+			synctest.Test(t, func(t *testing.T) {
+				msg, _ = runNotifySchedule(&c, &listChooser{in: c.Choices}, NewStats("C18"))
+			})
+			if msg != "" {
+				v = &Violation{Oracle: "blocking", Msg: msg}
+			}
+		} else {
+			v = replayDispatch(rf)
+		}
+		st.Inc("regression_cases_replayed")
+		if v != nil {
+			fmt.Printf("regression case %s fails again: %v\nVIOLATION property=%s replay=%s\n", en.Name(), v, rf.Property, path)
+			t.Fail()
+		}
+	}
 }
